@@ -281,6 +281,25 @@ def main():
 
     build_tools(notes)
     regenerate(notes)
+    if cfg.get("custom") == "c15":
+        import c15
+        cases, fails, cnotes = c15.check(tier, seed, GOENV, log)
+        stats = {"evaluations": cases, "agree": cases - len(fails), "spec_ok": cases - len(fails), "distinct_nontrivial": cases, "by_runner": {"c15": {"cases": cases}}}
+        notes["translator_errors"] += cnotes
+        known = {k["id"]: k for k in load_known() if k["property"] == prop}
+        for f in [f for f in fails if f.get("known") in known]:
+            known_hit.setdefault(f["known"], known[f["known"]].get("what", ""))
+        for kid, what in sorted(known_hit.items()):
+            print(f"KNOWN-FINDING: property={prop} {kid} {what}")
+        fails = [f for f in fails if f.get("known") not in known]
+        for f in fails[:3]:
+            path = write_replay(prop, "counterexample", {"in": f["input"], "obs": {"detail": f["detail"]}, "runner": "c15"}, {"why": f["what"]}, None, seed)
+            print(f"VIOLATION property={prop} replay={path}")
+        rc = 1 if fails else 0
+        finish(prop, tier, seed, t0, cfg, stats, [{"note": n} for n in cnotes[:3]], [], rc, notes, [], known_hit, 1, 0 if fails else 1, len(fails))
+        if rc == 0:
+            log(f"{prop} {tier}: ok — {cases} runs/comparisons, {time.time()-t0:.0f}s")
+        sys.exit(rc)
     if "harness_build_error" in notes:
         # the harness is ours; a /repo change that stops it compiling is a broken tie
         path = write_replay(prop, "broken-obligation", None, None,
